@@ -34,9 +34,19 @@ def same(v, w):
     if isinstance(v, dict):
         return isinstance(w, dict) and set(v.keys()) == set(w.keys()) and all(same(v[k], w[k]) for k in v)
     try:
-        return type(v) is type(w) and v == w
+        return _kind(v) == _kind(w) and v == w
     except Exception:
         return False
+
+
+def _kind(x):
+    """the built-in kind a value belongs to (a plain subclass of a built-in is that built-in)"""
+    import datetime
+    import uuid
+    for k in (bool, int, float, str, bytes, list, dict, uuid.UUID, datetime.datetime, datetime.date, type(None)):
+        if isinstance(x, k):
+            return k
+    return type(x)
 
 
 def same_lenient(v, w):
